@@ -250,6 +250,16 @@ def run_identify(g, X, Y, *, via="identify", conditions=None, pref=None, forms=N
     ident = None
     q_before = None
     args, args_before = {}, {}
+    # non-termination guard (mutation campaign B, mutant g03): a run-away recursion of ID / IDC costs ~1000 graph
+    # rebuilds per call before Python's own limit stops it, and shrinking repeats that hundreds of times.  The real
+    # recursion is shallow (measured: at most 26 Python frames below this one for graphs with up to 8 nodes, one frame
+    # per algorithm line), so the limit is lowered to this frame + 100 + 10 per node for the duration of the call.
+    frame, depth = sys._getframe(), 0
+    while frame is not None:
+        depth += 1
+        frame = frame.f_back
+    old_limit = sys.getrecursionlimit()
+    sys.setrecursionlimit(min(old_limit, depth + 100 + 10 * len(G.all_nodes(g))))
     try:
         if via == "identify_outcomes":
             args = {"X": F.varset(Xl, fm["X"]), "Y": F.varset(Yl, fm["Y"])}
@@ -283,6 +293,7 @@ def run_identify(g, X, Y, *, via="identify", conditions=None, pref=None, forms=N
         res["exc"] = type(e).__name__
         res["exc_msg"] = str(e)[:200]
     finally:
+        sys.setrecursionlimit(old_limit)
         lines, tape, r2, pp = _state["lines"], _state["topo"], _state["rule2"], _state["pp"]
         _state["lines"], _state["topo"], _state["rule2"], _state["pp"] = None, None, None, None
     mutated = None
@@ -638,6 +649,101 @@ def collider_family(rng: random.Random, nmax=6):
             sorted(perm[v] for v in Z), kind)
 
 
+
+def _relabel(rng, n, di, bi, *sets):
+    perm = list(range(n))
+    rng.shuffle(perm)
+    dil = [[perm[a], perm[b]] for a, b in di]
+    bil = [[perm[a], perm[b]] if rng.random() < 0.5 else [perm[b], perm[a]] for a, b in bi]
+    rng.shuffle(dil)
+    rng.shuffle(bil)
+    nodes = list(range(n))
+    rng.shuffle(nodes)
+    return ({"nodes": nodes, "di": dil, "bi": bil},) + tuple(sorted(perm[v] for v in s) for s in sets)
+
+
+def napkin_tower(rng: random.Random, levels=3, refuse=False):
+    """nested napkins (gap review round 5): W_k -> R_k -> W_{k-1} -> .. -> W -> R -> X -> Y with W_i <-> W_{i-1}, W_i <-> R_{i-1}
+    (innermost: W <-> X, W <-> Y): ID takes line 7 once per level (3,7,2,7,2,7,2,6 for three levels, 8 nodes).  `refuse`: one
+    extra bidirected edge at a random place, which mostly turns the run into a refusal AFTER one or more line 7s (7 -> .. -> 5).
+    Returns (g, X, Y, kind)."""
+    names = ["X", "Y"]
+    di, bi = [[0, 1]], []
+    prev_w, prev_r = None, None
+    for lv in range(levels):
+        w, r = len(names), len(names) + 1
+        names += ["W%d" % lv, "R%d" % lv]
+        di.append([w, r])
+        if lv == 0:
+            di.append([r, 0])
+            bi += [[w, 0], [w, 1]]
+        else:
+            di.append([r, prev_w])
+            bi += [[w, prev_w], [w, prev_r]]
+        prev_w, prev_r = w, r
+    n = len(names)
+    kind = "tower%d" % levels
+    if refuse:
+        for _ in range(20):
+            a, b = sorted(rng.sample(range(n), 2))
+            if [a, b] not in bi and [b, a] not in bi:
+                bi.append([a, b])
+                break
+        kind += "+bi"
+    X = [0] + ([2 + 1] if rng.random() < 0.2 else [])          # X, sometimes also R0
+    g, X, Y = _relabel(rng, n, di, bi, X, [1])
+    return g, X, Y, kind
+
+
+def multi_district_family(rng: random.Random, nmax=7):
+    """line 4 splitting into SEVERAL MULTI-NODE districts, outcomes in 2-3 districts, |Y| up to 4 (gap review round 5):
+    k = 2-3 districts of 2 nodes each (a_i <-> b_i, a_i -> b_i with probability 1/2), forward directed edges between the
+    districts, 1-2 treatments that are parents (never confounded) of district nodes; Y = one or both nodes of every district.
+    Returns (g, X, Y, kind)."""
+    k = 3 if nmax >= 7 and rng.random() < 0.6 else 2
+    nx_ = 1 if (k == 3 or rng.random() < 0.6) else 2
+    while 2 * k + nx_ > nmax:
+        nx_ -= 1
+    nx_ = max(nx_, 1)
+    xs = list(range(nx_))
+    ds = [[nx_ + 2 * i, nx_ + 2 * i + 1] for i in range(k)]
+    n = nx_ + 2 * k
+    di, bi = [], []
+    for a, b in ds:
+        bi.append([a, b])
+        if rng.random() < 0.5:
+            di.append([a, b])
+    for i in range(k):
+        for j in range(i + 1, k):
+            for u in ds[i]:
+                for v in ds[j]:
+                    if rng.random() < 0.3:
+                        di.append([u, v])
+    for x in xs:
+        kids = rng.sample([v for d in ds for v in d], rng.choice([1, 2, 2, 3]))
+        di += [[x, v] for v in kids]
+    if nx_ == 2 and rng.random() < 0.4:
+        di.append([0, 1])
+    Y = []
+    for a, b in ds:
+        t = rng.random()
+        Y += [b] if t < 0.45 else ([a, b] if t < 0.8 else [a])
+    g, X, Y = _relabel(rng, n, di, bi, xs, Y)
+    return g, X, Y, "mdist%d_y%d" % (k, len(Y))
+
+
+def big_query(rng: random.Random, nodes):
+    """|X| up to 4 and |Y| up to 4 on graphs with >= 6 nodes (rand_query stops at 3 / 2)"""
+    nodes = list(nodes)
+    rng.shuffle(nodes)
+    n = len(nodes)
+    ny = rng.choice([1, 2, 3, 3, 4])
+    nx_ = rng.choice([1, 2, 3, 4, 4])
+    ny = min(ny, n - 1)
+    nx_ = max(1, min(nx_, n - ny))
+    return sorted(nodes[:nx_]), sorted(nodes[nx_:nx_ + ny])
+
+
 def gen_graph(rng, nmin=2, nmax=7):
     if rng.random() < 0.5:
         return mutate_seed(rng, nmax)
@@ -733,7 +839,17 @@ def example_corpus(max_nodes=8):
     """(name, g, X, Y) for every example of y0.examples that carries identification queries, plus the
     bare graphs with all single-treatment / single-outcome queries for the small ones"""
     C.use_repo()
-    from y0 import examples as ex
+    try:
+        from y0 import examples as ex
+    except Exception as e:  # noqa: BLE001 - mutation campaign B, mutant u09: y0.examples builds Identification objects at
+        # import time, so a change in identify/utils.py can make the import itself raise.  That must not abort the check
+        # before a single case ran (exit 1 without a VIOLATION line): the corpus part is skipped, loudly, and the
+        # generated stream (which drives the same constructors inside run_identify's try block) names the failing input.
+        if not _state.get("examples_error"):
+            _state["examples_error"] = f"{type(e).__name__}: {str(e)[:200]}"
+            print(f"NOTE: y0.examples cannot be imported on this tree ({_state['examples_error']}); the example corpus is skipped",
+                  flush=True)
+        return []
 
     out = []
     seen = set()
